@@ -12,6 +12,12 @@ import argparse, json, os, re, shutil, subprocess, sys, time
 
 SCR = '/tmp/mutsweep'
 REPO = f'{SCR}/repo'
+
+
+def set_scr(path):
+    global SCR, REPO
+    SCR = path
+    REPO = f'{SCR}/repo'
 FILES = ['src/datetime/mod.rs', 'src/datetime/find.rs', 'src/timezone/mod.rs', 'src/timezone/rule.rs', 'src/parse/tz_file.rs',
          'src/parse/tz_string.rs', 'src/utils/const_fns.rs', 'src/parse/utils.rs', 'src/constants/mod.rs']
 # cheap checks first; C07 (fuzz), C15 (threads; needs autotraits) and C19 (3 builds) are not part of the sweep
@@ -27,6 +33,46 @@ SUBS = [
     (r'Ok\(x\) => x \+ 1', 'Ok(x) => x'), (r'Err\(x\) => x,', 'Err(x) => x + 1,'),
 ]
 NUM = re.compile(r'(?<![\w.])(\d{1,3})(?![\w.])')
+
+# second operator set (--ops 2): whole-statement and condition-level mutations, large literals
+SUBS2 = [
+    (r'\.min\(', '.max('), (r'\.max\(', '.min('), (r'\bbreak\b', 'continue'), (r'\bcontinue\b', 'break'),
+    (r'\.rev\(\)', ''), (r'\.skip\(1\)', ''), (r'\.is_some\(\)', '.is_none()'), (r'\.is_none\(\)', '.is_some()'),
+    (r'\.is_ok\(\)', '.is_err()'), (r'\.is_err\(\)', '.is_ok()'), (r' as i64\b', ' as i32 as i64'), (r'\bi64::from\(', 'i64::from(1 + '),
+    (r'\.abs\(\)', ''), (r'\.unsigned_abs\(\)', '.wrapping_abs() as u32'), (r'-\(', '('), (r'!\(', '('),
+    (r'\.checked_mul\(', '.checked_add('), (r'\.last\(\)', '.first()'), (r'\.first\(\)', '.last()'),
+]
+BIGNUM = re.compile(r'(?<![\w.])(\d[\d_]{3,12})(?![\w.])')
+IFCOND = re.compile(r'^(\s*)(\} else )?if (?!let )(.+) \{\s*$')
+TRYSTMT = re.compile(r'^\s*(?!let |return |Ok\(|Some\()[A-Za-z_][^=]*\?;\s*$')
+
+
+def mutants2(files):
+    for f in files:
+        src, lines = code_lines(f'{REPO}/{f}')
+        for i, l in lines:
+            code = l.split('//')[0]
+            for pat, rep in SUBS2:
+                for m in re.finditer(pat, code):
+                    new = code[:m.start()] + rep + code[m.end():] + l[len(code):]
+                    if new != l:
+                        yield f, i, l, new, f'{pat} -> {rep}'
+            m = IFCOND.match(code.rstrip())
+            if m:
+                for val in ('true', 'false'):
+                    yield f, i, l, f"{m.group(1)}{m.group(2) or ''}if {val} {{", f'if-condition -> {val}'
+                # negate the whole condition
+                yield f, i, l, f"{m.group(1)}{m.group(2) or ''}if !({m.group(3)}) {{", 'if-condition negated'
+            if TRYSTMT.match(code):
+                yield f, i, l, re.sub(r'\S.*$', '();', code.rstrip(), count=1), 'checked statement deleted'
+            for m in BIGNUM.finditer(code):
+                txt = m.group(1)
+                try:
+                    v = int(txt.replace('_', ''))
+                except ValueError:
+                    continue
+                for nv in (v + 1, v - 1):
+                    yield f, i, l, code[:m.start(1)] + str(nv) + code[m.end(1):] + l[len(code):], f'{v} -> {nv}'
 
 
 def sh(cmd, cwd=None, env=None, timeout=900):
@@ -110,9 +156,12 @@ def main():
     ap.add_argument('--stride', type=int, default=1, help='take every n-th mutant')
     ap.add_argument('--offset', type=int, default=0)
     ap.add_argument('--keep', action='store_true')
+    ap.add_argument('--ops', type=int, default=1, help='1 = operator swaps / small literals, 2 = conditions, deleted checks, large literals, method swaps')
+    ap.add_argument('--scr', default='/tmp/mutsweep', help='scratch directory (one per concurrent worker)')
     a = ap.parse_args()
+    set_scr(a.scr)
     setup()
-    env = dict(os.environ, CARGO_NET_OFFLINE='true', VERIF_HOME=f'{SCR}/home', VERIF_NO_EVIDENCE='1', VERIF_SEED='0')
+    env = dict(os.environ, CARGO_NET_OFFLINE='true', VERIF_HOME=f'{SCR}/home', VERIF_NO_EVIDENCE='1', VERIF_SEED='0', VERIF_C20_SKIP_ALLOC_ONLY='1')
     ids = a.ids.split(',')
     rc, out = sh('cargo build --release --offline --bin vcheck', cwd=f'{SCR}/vlib', env=env, timeout=1800)
     assert rc == 0, out[-2000:]
@@ -129,7 +178,8 @@ def main():
                 pass
     res = open(a.out, 'a')
     n = 0
-    for k, (f, i, old, new, desc) in enumerate(mutants(a.files.split(','))):
+    gen = mutants2 if a.ops == 2 else mutants
+    for k, (f, i, old, new, desc) in enumerate(gen(a.files.split(','))):
         if k % a.stride != a.offset or (f, i + 1, new.strip()) in done:
             continue
         n += 1
